@@ -123,6 +123,8 @@ def run(ctx):
                       "hands the value to it (directly or through the async executor), and the callback reads no state of the shared .rx namespace object", floor=3)
     ctx.rule("R09.j", "where model: reactive_ops.where interpreted abstractly; the callbacks it binds to the dependencies of each branch are called under six current conditions "
                       "(True, False, a truthy non-bool, 0, '', None): the x-callback fires the Trigger iff the condition is truthy, the y-callback iff falsy; the ternary follows truthiness and is bound to (condition, Trigger value)", floor=1)
+    ctx.rule("R09.k", "building an expression does not change its operands: no method of rx that derives a new expression (calls _clone / _resolve_accessor / _apply_operator) stores into an "
+                      "attribute of `self` (after `r = e.real`, evaluating `r + 1` must leave r what it was)", floor=5)
     ctx.rule("R09.i", "rx cache model: rx._resolve, the rx._obj property, _invalidate_current and _invalidate_obj interpreted abstractly on a three-node expression (root, op1, op2) under every "
                       "history of up to 3 (thorough: 4) steps of read leaf / read middle node / set the input to A, B or a bad value / set an operation argument to P, Q or a bad value, followed by a read: the read gives op2(op1(current input, current argument)), "
                       "raises for the bad input, and recovers", floor=1)
@@ -309,6 +311,26 @@ def run(ctx):
                                                    "_resolve does not store the evaluation error before re-raising / does not re-raise a stored error first")
 
     # model-level rule, run last
+    # ---------------------------------------------------------------- R09.k
+    n_k = 0
+    for g in ctx.repo.cls(RX).methods.values():
+        for m_ in g:
+            derives = any(isinstance(c, ast.Call) and isinstance(c.func, ast.Attribute) and c.func.attr in ("_clone", "_resolve_accessor", "_apply_operator")
+                          and isinstance(c.func.value, ast.Name) and c.func.value.id == (m_.params[0] if m_.params else "self") for c in ast.walk(m_.node))
+            if not derives or m_.name in ("__init__",):
+                continue
+            n_k += 1
+            selfn = m_.params[0]
+            stores = [t for st in ast.walk(m_.node) if isinstance(st, (ast.Assign, ast.AugAssign)) for t in (st.targets if isinstance(st, ast.Assign) else [st.target])
+                      if isinstance(t, ast.Attribute) and isinstance(t.value, ast.Name) and t.value.id == selfn]
+            if stores:
+                ctx.fail("R09.k", m_, stores[0], "rx.%s derives a new expression but also stores into `%s`: the expression it was applied to is changed by being used "
+                                                 "(after r = e.attr, evaluating r + 1 makes r.rx.value return the whole object)" % (m_.name, norm(stores[0])),
+                         key="%s::mutates-operand::%s" % (m_.qualname, stores[0].attr), input="c = rx(3+4j); r = c.real; r + 1; r.rx.value -> (3+4j)")
+            else:
+                ctx.ok("R09.k", m_, m_.node, "derives a new expression and stores nothing on self")
+    ctx.require(n_k >= 5, "fewer than 5 expression-deriving methods found in rx (%d)" % n_k)
+
     from checks import where_model
     where_model.report(ctx, "R09.j")
     from checks import rx_model
